@@ -45,6 +45,7 @@ type thread struct {
 	label   string
 	done    bool
 	aborted bool
+	daemon  bool
 }
 
 // Sched is one controlled execution.
@@ -97,6 +98,9 @@ func Run(ch *mc.Chooser, opt Options, bodies ...func()) *Sched {
 	for i, b := range bodies {
 		s.threads = append(s.threads, &thread{id: i, body: b, wake: make(chan struct{}, 1), kind: OpStart, label: "start"})
 	}
+	closedMu.Lock()
+	closedChans = map[interface{}]bool{}
+	closedMu.Unlock()
 	active = s
 	s.wg.Add(len(s.threads))
 	for _, t := range s.threads {
@@ -215,15 +219,24 @@ func (s *Sched) pick(cur *thread) *thread {
 		}
 	}
 	if len(enabled) == 0 {
+		anyLeft := false
 		for _, t := range s.threads {
 			if !t.done {
-				s.Deadlock = true
-				s.abort = true
-				return s.pick(cur)
+				anyLeft = true
+				if !t.daemon {
+					s.Deadlock = true
+				}
 			}
+		}
+		if anyLeft {
+			// deadlock, or only blocked daemon threads remain: tear the execution down
+			s.abort = true
+			return s.pick(cur)
 		}
 		return nil
 	}
+	// only daemon threads are still runnable and every regular thread has finished:
+	// the execution is over once the daemons are idle, let them run until they block
 	s.Steps++
 	if s.Steps > s.Horizon {
 		s.HorizonHit = true
@@ -299,6 +312,62 @@ func (s *Sched) Running() int { return s.running }
 //
 //go:norace
 func (s *Sched) Aborted() bool { return s.abort }
+
+// condRes is a Resource backed by a predicate.
+type condRes struct{ f func() bool }
+
+//go:norace
+func (c condRes) CanAcquire(int) bool { return c.f() }
+
+// Wait blocks the running thread (as far as the scheduler is concerned) until cond holds;
+// it models a blocking operation of the code under test (e.g. a channel receive) whose
+// readiness the overlay makes visible. Without an active scheduler it returns at once (the
+// real blocking operation that follows does the waiting).
+//
+//go:norace
+func Wait(cond func() bool, label string) {
+	if s := active; s != nil && !s.abort && s.running >= 0 {
+		s.Point(OpYield, condRes{cond}, label)
+	}
+}
+
+// Go starts fn as a new scheduled thread of the active execution (or as a plain goroutine
+// when no scheduler is active). The overlay rewrites `go` statements of the code under
+// test into calls of Go, so that goroutines spawned inside it are scheduled too.
+//
+//go:norace
+func Go(fn func()) { spawn(fn, false) }
+
+// GoDaemon is Go for a goroutine that never terminates by itself (a service loop): the
+// execution ends when all regular threads are done and the daemons are blocked.
+//
+//go:norace
+func GoDaemon(fn func()) { spawn(fn, true) }
+
+//go:norace
+func spawn(fn func(), daemon bool) {
+	s := active
+	if s == nil || s.abort {
+		go fn()
+		return
+	}
+	t := &thread{id: len(s.threads), body: fn, wake: make(chan struct{}, 1), kind: OpStart, label: "start", daemon: daemon}
+	s.threads = append(s.threads, t)
+	s.wg.Add(1)
+	go s.threadMain(t)
+}
+
+var (
+	closedMu    sync.Mutex
+	closedChans = map[interface{}]bool{}
+)
+
+// MarkClosed remembers that channel ch was closed (the overlay adds the call next to the
+// close statement), so that Wait conditions can test IsClosed.
+func MarkClosed(ch interface{}) { closedMu.Lock(); closedChans[ch] = true; closedMu.Unlock() }
+
+// IsClosed reports whether MarkClosed(ch) was called since the current execution began.
+func IsClosed(ch interface{}) bool { closedMu.Lock(); defer closedMu.Unlock(); return closedChans[ch] }
 
 // Yield is an explicit scheduling point for harness bodies.
 //
